@@ -1,6 +1,7 @@
 """Structural properties over exhaustively enumerated configuration boxes:
 C13 (TwoLevel), C14 (Multistage split), C16 (Mixed with/without numba),
 C19 (PeriodicDiskRevolve)."""
+import json
 import itertools
 from fractions import Fraction
 
@@ -263,9 +264,17 @@ def check_c14(prop, tier):
     n_small = len(groups)
     groups = groups + big_groups
 
-    def worker(idxs):
+    # groups 2k and 2k+1 are the two trajectories of one (n, s): one worker
+    # drives them back to back, 'maximum' first in one sweep and 'revolve'
+    # first in a second sweep over fresh processes, so that a table shared
+    # between constructions and keyed without the trajectory is seen from
+    # either side
+    first_traj = [0]
+
+    def worker(pidxs):
         out = []
-        for gi in idxs:
+        for gi in [2 * pi + (k ^ first_traj[0]) for pi in pidxs
+                   for k in (0, 1)]:
             n, s, traj = groups[gi]
             fails = []
             base = None
@@ -332,12 +341,23 @@ def check_c14(prop, tier):
             out.append((gi, fails, ntr, nact, nsplit))
         return out
     nontriv = 0
-    for part in common.pmap(worker, len(groups)):
+    assert len(groups) % 2 == 0
+    parts = []
+    for first_traj[0] in (0, 1):
+        parts += common.pmap(worker, len(groups) // 2)
+    res.bounds["trajectory_orders"] = 2
+    reported = set()
+    for part in parts:
         for gi, fails, ntr, nact, nsplit in part:
             res.add(evaluations=nsplit, transitions=nact, states=nact,
                     traces_validated_against_impl=nsplit)
             nontriv += ntr
             for cj, code, msg in fails:
+                if (json.dumps(cj, sort_keys=True, default=str), code) \
+                        in reported:
+                    continue
+                reported.add((json.dumps(cj, sort_keys=True, default=str),
+                              code))
                 if code == "HARNESS":
                     res.harness_error(msg)
                     continue
